@@ -70,8 +70,8 @@ inline std::vector<std::pair<std::string, Topo>> named_families() {
 
 // Coordinates bound to vertex ids.
 inline void id_position(int id, float *p) {
-  static const float P[8][3] = {{0, 0, 0}, {1, 0, 0}, {0, 1, 0}, {0, 0, 1}, {1, 1, 1}, {2, 3, 5}, {3, 1, 2}, {5, 2, 3}};
-  for (int k = 0; k < 3; ++k) p[k] = P[id % 8][k];
+  static const float P[12][3] = {{0, 0, 0}, {1, 0, 0}, {0, 1, 0}, {0, 0, 1}, {1, 1, 1}, {2, 3, 5}, {3, 1, 2}, {5, 2, 3}, {4, 4, 1}, {6, 1, 1}, {1, 6, 2}, {2, 2, 7}};
+  for (int k = 0; k < 3; ++k) p[k] = P[id % 12][k];
 }
 
 enum PosKind { POS_F32 = 0, POS_F32_Q = 1, POS_I32 = 2, POS_F32_DUPVALUES = 3, POS_KINDS = 4 };
@@ -219,6 +219,55 @@ inline GeomDef s2b_mesh(const Topo &t, uint32_t bits1, uint32_t bits2, PosKind p
     a2.map.push_back(p.b);
   }
   g.atts = {pos, a1, a2};
+  return g;
+}
+
+// S2c: a per-corner integer attribute with an arbitrary value per corner
+// (corner_values[3*f+k]); points = distinct (vertex id, value) pairs.
+inline GeomDef s2c_mesh(const Topo &t, const std::vector<int> &corner_values, PosKind pkind) {
+  GeomDef g;
+  g.is_mesh = true;
+  std::vector<std::pair<int, int>> pts;
+  for (size_t f = 0; f < t.size(); ++f) {
+    std::array<int, 3> face;
+    for (int k = 0; k < 3; ++k) {
+      const int vid = t[f][k], val = corner_values[3 * f + k];
+      int pid = -1;
+      for (size_t i = 0; i < pts.size(); ++i)
+        if (pts[i].first == vid && pts[i].second == val) pid = (int)i;
+      if (pid < 0) {
+        pid = (int)pts.size();
+        pts.push_back({vid, val});
+      }
+      face[k] = pid;
+    }
+    g.faces.push_back(face);
+  }
+  g.num_points = (int)pts.size();
+  const int k = num_ids(t);
+  std::vector<int> ev(k);
+  for (int i = 0; i < k; ++i) ev[i] = i;
+  AttDef pos = position_att(k, pkind, ev);
+  AttDef a;
+  a.type = GeometryAttribute::GENERIC;
+  a.dt = DT_INT32;
+  a.nc = 1;
+  a.uid = 1;
+  a.per_corner = true;
+  std::vector<int> vals;
+  for (auto &p : pts) {
+    pos.map.push_back(p.first);
+    int e = -1;
+    for (size_t i = 0; i < vals.size(); ++i)
+      if (vals[i] == p.second) e = (int)i;
+    if (e < 0) {
+      e = (int)vals.size();
+      vals.push_back(p.second);
+      a.entries.push_back(bytes_of(std::vector<int32_t>{p.second * 37 - 5}));
+    }
+    a.map.push_back(e);
+  }
+  g.atts = {pos, a};
   return g;
 }
 
